@@ -573,6 +573,7 @@ type RetPath struct {
 	Call  ssa.CallInstruction // for RetForward
 	Val   ssa.Value
 	Edge  *Fact // branch taken from Block towards the phi, if Block ends in an If
+	To    *ssa.BasicBlock // the phi's block when this way of returning is a phi edge from Block
 }
 
 // Facts returns the conditions established on this way of returning.
@@ -603,8 +604,10 @@ func returnPaths(fn *ssa.Function, idx int) []RetPath {
 		}
 		seen := map[ssa.Value]bool{}
 		var curEdge *Fact
+		var curTo *ssa.BasicBlock
 		emit := func(rp RetPath) {
 			rp.Edge = curEdge
+			rp.To = curTo
 			// a value known non-nil on this very path is a failure
 			if rp.Kind != RetFail && rp.Kind != RetNil {
 				for _, a := range rp.Atoms() {
@@ -639,13 +642,14 @@ func returnPaths(fn *ssa.Function, idx int) []RetPath {
 				seen[v] = true
 				for i, e := range x.Edges {
 					pred := x.Block().Preds[i]
-					saved := curEdge
+					saved, savedTo := curEdge, curTo
 					curEdge = nil
+					curTo = x.Block()
 					if ifi, ok := pred.Instrs[len(pred.Instrs)-1].(*ssa.If); ok && pred.Succs[0] != pred.Succs[1] {
 						curEdge = &Fact{Cond: ifi.Cond, Truth: pred.Succs[0] == x.Block(), If: ifi}
 					}
 					walk(e, pred)
-					curEdge = saved
+					curEdge, curTo = saved, savedTo
 				}
 				return
 			case *ssa.Call:
@@ -1420,7 +1424,7 @@ func backwardCtl(v ssa.Value, visit func(ssa.Value) bool) {
 		if !visit(v) {
 			return
 		}
-		if phi, ok := v.(*ssa.Phi); ok {
+		if phi, ok := v.(*ssa.Phi); ok && isBoolType(phi.Type()) {
 			for _, p := range phi.Block().Preds {
 				if ifi, ok := p.Instrs[len(p.Instrs)-1].(*ssa.If); ok {
 					walk(ifi.Cond)
@@ -1675,6 +1679,12 @@ func pathsBetween(fn *ssa.Function, from, to *ssa.BasicBlock, budget int, visit 
 					}
 					x = res(x)
 					isNil := want == (bo.Op == token.EQL)
+					if isNil && definitelyNonNil(x) {
+						contradict = true
+					}
+					if cx, isC := x.(*ssa.Const); isC && cx.IsNil() && !isNil {
+						contradict = true
+					}
 					for _, n := range nils {
 						if n.v == x && n.isNil != isNil {
 							contradict = true
@@ -1763,4 +1773,25 @@ func termOf(v ssa.Value, depth int) string {
 		return "new"
 	}
 	return fmt.Sprintf("%T", v)
+}
+
+func isBoolType(t types.Type) bool {
+	b, ok := t.Underlying().(*types.Basic)
+	return ok && b.Kind() == types.Bool
+}
+
+// definitelyNonNil: a package-level error variable or a freshly constructed error.
+func definitelyNonNil(v ssa.Value) bool {
+	v = stripConv(v)
+	switch x := v.(type) {
+	case *ssa.UnOp:
+		if x.Op == token.MUL {
+			if g, ok := x.X.(*ssa.Global); ok && isErrorType(deref(g.Type())) {
+				return true
+			}
+		}
+	case *ssa.Call:
+		return isErrorCtor(x)
+	}
+	return false
 }
